@@ -167,25 +167,63 @@ Definition cond_match (c : bytes) (t : dm) : bool :=
 
 Definition is_edge (s : sel) : bool := match s with SEdge => true | _ => false end.
 
+(* The confirmed deviations of the pinned code from the specified semantics (C07), as switches:
+   [pinned] is the code as it is; flipping a switch gives the repaired behaviour.
+     q_union_dup        ExploreUnion.Interests concatenates its members' interests without de-duplication
+                        ("TODO: Dedup?"): a child named by two members is walked once per occurrence
+     q_bare_edge_panic  ExploreRecursiveEdge.Explore panics; reached when an edge is a direct member of the
+                        union that is a recursion's current selector (repaired: such an edge is dead)
+     q_exhausted_unwrap when the depth limit is exhausted the ExploreRecursive wrapper is dropped from what
+                        remains, so an edge nested in the remainder later shows up bare and its node is
+                        visited as a candidate (repaired: the wrapper stays)
+     q_shared_depth     one depth counter serves all members of the current selector: every member's
+                        remaining depth drops whenever any member passes an edge (repaired: each member is
+                        wrapped with its own counter) *)
+Record quirks := { q_union_dup : bool; q_bare_edge_panic : bool; q_exhausted_unwrap : bool; q_shared_depth : bool }.
+Definition pinned : quirks :=
+  {| q_union_dup := true; q_bare_edge_panic := true; q_exhausted_unwrap := true; q_shared_depth := true |}.
+Definition repaired : quirks :=
+  {| q_union_dup := false; q_bare_edge_panic := false; q_exhausted_unwrap := false; q_shared_depth := false |}.
+
+Definition exhausted (lim : option Z) : bool := match lim with Some d => d <? 2 | None => false end.
+Definition lim_pred (lim : option Z) : option Z := match lim with Some d => Some (d - 1) | None => None end.
+
+(* repaired wrapping: every member of the (possibly nested) union gets its own ExploreRecursive with its own
+   remaining depth; an edge becomes a fresh iteration with the depth decremented, or dies when exhausted *)
+Fixpoint wrap_members (sq : sel) (lim : option Z) (stop : option bytes) (nx : sel) : option sel :=
+  match nx with
+  | SEdge => if exhausted lim then None else Some (SRec sq sq (lim_pred lim) stop)
+  | SUnion [] => Some (SRec sq nx lim stop)
+  | SUnion ms =>
+      union_of ((fix go (l : list sel) : list sel :=
+                   match l with
+                   | [] => []
+                   | m :: t => match wrap_members sq lim stop m with Some m' => m' :: go t | None => go t end
+                   end) ms)
+  | _ => Some (SRec sq nx lim stop)
+  end.
+
 (* what ExploreRecursive.Explore does with the selector its current clause returned *)
-Definition rec_wrap (sq : sel) (lim : option Z) (stop : option bytes) (nx : sel) : xr (option sel) :=
-  if negb (has_edge nx) then XOk (Some (SRec sq nx lim stop))
-  else match lim with
-       | Some d =>
-           if d <? 2 then XOk (replace_edge nx None)
-           else match replace_edge nx (Some sq) with
-                | Some c => XOk (Some (SRec sq c (Some (d - 1)) stop))
-                | None => XPanic (* unreachable: a nil current selector would be dereferenced later *)
-                end
-       | None =>
-           match replace_edge nx (Some sq) with
-           | Some c => XOk (Some (SRec sq c None stop))
-           | None => XPanic
-           end
-       end.
+Definition rec_wrap (q : quirks) (sq : sel) (lim : option Z) (stop : option bytes) (nx : sel) : xr (option sel) :=
+  if q_shared_depth q then
+    (* the code as written *)
+    if negb (has_edge nx) then XOk (Some (SRec sq nx lim stop))
+    else if exhausted lim then
+      (if q_exhausted_unwrap q then XOk (replace_edge nx None)
+       else match replace_edge nx None with
+            | Some c => XOk (Some (SRec sq c lim stop))
+            | None => XOk None
+            end)
+    else match replace_edge nx (Some sq) with
+         | Some c => XOk (Some (SRec sq c (lim_pred lim) stop))
+         | None => XPanic (* unreachable: a nil current selector would be dereferenced later *)
+         end
+  else
+    if q_exhausted_unwrap q && has_edge nx && exhausted lim then XOk (replace_edge nx None)
+    else XOk (wrap_members sq lim stop nx).
 
 (* Selector.Explore(node, segment) *)
-Fixpoint explore (s : sel) (n : dm) (p : seg) {struct s} : xr (option sel) :=
+Fixpoint explore (q : quirks) (s : sel) (n : dm) (p : seg) {struct s} : xr (option sel) :=
   match s with
   | SMatch _ => XOk None
   | SAll nx => XOk (Some nx)
@@ -210,7 +248,7 @@ Fixpoint explore (s : sel) (n : dm) (p : seg) {struct s} : xr (option sel) :=
       match (fix go (l : list sel) : xr (list sel) :=
                match l with
                | [] => XOk []
-               | m :: t => match explore m n p with
+               | m :: t => match explore q m n p with
                            | XOk r => match go t with
                                       | XOk rs => XOk (match r with Some x => x :: rs | None => rs end)
                                       | XErr => XErr
@@ -239,14 +277,15 @@ Fixpoint explore (s : sel) (n : dm) (p : seg) {struct s} : xr (option sel) :=
       | XOk true => XOk None
       | XOk false =>
           if is_edge cur then XOk None
-          else match explore cur n p with
+          else match explore q cur n p with
                | XPanic => XPanic
                | XErr => XOk None            (* nextSelector, _ := s.current.Explore(n, p) *)
                | XOk None => XOk None
-               | XOk (Some nx) => rec_wrap sq lim stop nx
+               | XOk (Some nx) => rec_wrap q sq lim stop nx
                end
       end
-  | SEdge => XPanic   (* "Traversed Explore Recursive Edge Node With No Parent" *)
+  | SEdge => if q_bare_edge_panic q then XPanic   (* "Traversed Explore Recursive Edge Node With No Parent" *)
+             else XOk None
   end.
 
 (* Slice.Slice: the bounds come from the generated sliceBounds; str[from:to] *)
